@@ -805,6 +805,8 @@ fn resolve_function(f: &ast::FunctionDefinition, types: &[ast::ScopedIdentifier]
     f.returntype.return_type = resolve_plain_type(&f.returntype.return_type, types);
     for p in f.params.iter_mut() {
         p.param_type = resolve_plain_type(&p.param_type, types);
+        p.declarator = resolve_decl(&p.declarator, types);
+        p.default_expr = p.default_expr.as_ref().map(|e| resolve(e, types));
     }
     if let Some(b) = &f.body {
         f.body = Some(b.iter().map(|s| resolve_stmt_keep(s, types)).collect());
@@ -837,6 +839,10 @@ pub fn resolve_module(defs: &[ast::RootDefinition], types: &[ast::ScopedIdentifi
                         ast::StructEntry::Variable(v) => {
                             let mut v = v.clone();
                             v.ty = resolve_plain_type(&v.ty, types);
+                            for d in v.defs.iter_mut() {
+                                d.declarator = resolve_decl(&d.declarator, types);
+                                d.init = d.init.as_ref().map(|i| resolve_init(i, types));
+                            }
                             ast::StructEntry::Variable(v)
                         }
                     })
@@ -846,7 +852,21 @@ pub fn resolve_module(defs: &[ast::RootDefinition], types: &[ast::ScopedIdentifi
             ast::RootDefinition::GlobalVariable(g) => {
                 let mut g = g.clone();
                 g.global_type = resolve_plain_type(&g.global_type, types);
+                // initialisers and array sizes are expressions: `static const T g = f<(n)>();` prints `f<n>()`, which reads
+                // back as `Either` (compared as the expression, like everywhere else)
+                for d in g.defs.iter_mut() {
+                    d.declarator = resolve_decl(&d.declarator, types);
+                    d.init = d.init.as_ref().map(|i| resolve_init(i, types));
+                }
                 ast::RootDefinition::GlobalVariable(g)
+            }
+            ast::RootDefinition::Enum(e) => {
+                // `B = sizeof((a))` prints `sizeof(a)`: `Either`, compared as the expression
+                let mut e = e.clone();
+                for v in e.values.iter_mut() {
+                    v.value = v.value.as_ref().map(|x| loc(resolve(&x.node, types)));
+                }
+                ast::RootDefinition::Enum(e)
             }
             ast::RootDefinition::Namespace(n, inner) => {
                 ast::RootDefinition::Namespace(n.clone(), resolve_module(inner, types))
